@@ -235,6 +235,10 @@ def h_pipeline_pair(eng, ff):
         eng.check(True, "not-within-limit")
         return
     ok = all(bool(r.ss_bonded) and not r.has_atom("HG") and r.ffname.endswith("CYX") for r in cys) and cys[0].ss_bonded_partner is s1 and cys[1].ss_bonded_partner is s0
+    unparam = sorted({f"{r.name}{r.res_seq}:{a.name}" for r in cys for a in r.atoms if a.ffcharge is None or a.radius is None})
+    eng.check(not unparam, "bridged-cysteines-are-parameterised", note=f"ff={ff}, chain position {pos}, neutraln={neutraln}, neutralc={neutralc}: atoms of the bridged cysteines without parameters (dropped from the output): {unparam[:6]} (states {state}){aborted}")
+    want_prefix = {0: "NEUTRAL-N" if neutraln else "N", 1: "", 2: "NEUTRAL-C" if neutralc else "C"}[pos]
+    eng.check(all(str(r.ffname) == want_prefix + "CYX" for r in cys), "bridged-cysteine-keeps-its-terminal-parameter-set", note=f"chain position {pos}, neutraln={neutraln}, neutralc={neutralc}: the bridged cysteines are keyed {[str(r.ffname) for r in cys]}, the parameter set of that position is {want_prefix}CYX{aborted}")
     eng.check(ok, "bridged-pair-through-the-pipeline", note=f"sulfurs {utilities.distance(s0.coords, s1.coords):.2f} A apart in the final structure (input names {names}, SG rebuilt: {missing}, chain position {pos}, neutraln={neutraln}, neutralc={neutralc}) but the residues end as {state}{aborted}")
 
 
@@ -261,7 +265,7 @@ def h_stage_order(eng, ff, pka, ligand):
 def obligations(tier):
     obs = []
     if tier == "quick":
-        plan = [("own-chains", 2), ("own-chains", 3), ("one-chain", 3), ("spaced", 3), ("two-chains", 4)]
+        plan = [("own-chains", 2), ("own-chains", 3), ("one-chain", 3), ("spaced", 3), ("two-chains", 4), ("own-chains", 5)]  # 5: a three-sulfur cluster next to a clean pair
     else:
         plan = [(lay, n) for lay in LAYOUTS for n in (2, 3, 4, 5)]
     for layout, n in plan:
